@@ -27,6 +27,13 @@ UM == [i \in DOMAIN UW |-> FromWire(UW[i])]          \* model form
 N == Len(UW)
 
 Seqs(n) == UNION { [1..k -> 1..N] : k \in 0..n }
+\* probe chains: longer sequences over the values whose hashes coincide or are neighbours (true, 1, decimal 0.0001,
+\* 1 ms, datetime 1 -> hash 1; 2, 3, 4 -> the following slots), at every tier: a member displaced from its home
+\* slot by a collision occupies the home slot of the next value
+ChainIdx3 == {1, 2, 3, 4, 5, 9, 10}
+ChainIdx4 == {2, 3, 9, 10}
+ChainIdx5 == {2, 3, 9}
+ChainSeqs == [1..3 -> ChainIdx3] \cup [1..4 -> ChainIdx4] \cup [1..5 -> ChainIdx5]
 Variants(a) ==
   {a, Reverse(a)} \cup { a \o <<a[i]>> : i \in DOMAIN a } \cup { SubSeq(a, 1, k) : k \in 0..Len(a) }
   \cup { [a EXCEPT ![i] = (a[i] % N) + 1] : i \in DOMAIN a }
@@ -42,7 +49,7 @@ VARIABLES case, out
 vars == <<case, out, input, val, built, outs, hist>>
 
 LawInit == /\ case \in ({ [kind |-> "table"] }
-                        \cup { [kind |-> "sets", a |-> a] : a \in Seqs(MaxLen) }
+                        \cup { [kind |-> "sets", a |-> a] : a \in Seqs(MaxLen) \cup ChainSeqs }
                         \cup { [kind |-> "recs", r |-> r] : r \in Recs })
            /\ out = <<>> /\ input = <<>> /\ val = {} /\ built = FALSE /\ outs = <<>> /\ hist = <<>>
 LawNext == /\ out = <<>>
